@@ -180,7 +180,9 @@ Section Reporters.
     (* day index, state, node -> new state, chunks written, error returned by Process *)
     r_process : nat -> RS -> lognode -> RS * list chunk * option cerr;
     (* what Flush() writes before flushing the buffer *)
-    r_flush : RS -> list chunk
+    r_flush : RS -> list chunk;
+    (* a partial Go operation (index, nil dereference) that went wrong, if any *)
+    r_panic : RS -> option bytes
   }.
 
   Definition unchecked (s : bytes) : chunk := (s, false).
@@ -195,14 +197,16 @@ Section Reporters.
     r_process := fun i _ ln =>
       let it := get_report_item c (perm_day i) d ln in
       (tt, [checked (if beq (rc_template c) (b "left-aligned") then render_left c it else render_default c it)], None);
-    r_flush := fun _ => []
+    r_flush := fun _ => [];
+    r_panic := fun _ => None
   |}.
 
   (** summaryReporterTemplate *)
   Definition rep_summary (c : rconfig) (d : db) : reporter := {|
     RS := unit; r_init := tt;
     r_process := fun i _ ln => (tt, [checked (render_summary c (get_report_item c (perm_day i) d ln))], None);
-    r_flush := fun _ => []
+    r_flush := fun _ => [];
+    r_panic := fun _ => None
   |}.
 
   (** regReporter (the old one): its own accounting *)
@@ -235,7 +239,8 @@ Section Reporters.
     RS := unit; r_init := tt;
     r_process := fun i _ ln =>
       (tt, unchecked (fdate c (ln_time ln) ++ [c_lf]) :: old_rows c d ln ++ old_totals c (perm_day i) d ln, None);
-    r_flush := fun _ => []
+    r_flush := fun _ => [];
+    r_panic := fun _ => None
   |}.
 
   (** singleReporter (reg -s X) *)
@@ -274,7 +279,8 @@ Section Reporters.
       | Some (Some (p, n)) => (st, [unchecked (render_single c (ln_time ln) p n)], None)
       | Some None => (Some (Panic (b "single_reporter.go:44 index out of range")), [], None)
       end;
-    r_flush := fun _ => []
+    r_flush := fun _ => [];
+    r_panic := fun st => match st with Some (Panic site) => Some site | None => None end
   |}.
 
   (** elementByFoodReporter (reg -s X -g) *)
@@ -292,7 +298,8 @@ Section Reporters.
       (fold_left (fun a nv => acc_add NM (fst nv) (snd nv) a) (byfood_contributions d (rc_single_element c) ln) acc, [], None);
     r_flush := fun acc =>
       map (fun t => let '(name, p, n, s) := t in unchecked (f10_2 s ++ [c_tab] ++ name ++ [c_lf]))
-          (totals_of_acc perm_flush acc)
+          (totals_of_acc perm_flush acc);
+    r_panic := fun _ => None
   |}.
 
   (** singleFoodReporter (reg -f PATTERN): patterns without regular-expression
@@ -313,7 +320,8 @@ Section Reporters.
                                    else []) (ln_elems ln), None)
         else (tt, [], Some (EUnmodelled (b "regexp")))
       end;
-    r_flush := fun _ => []
+    r_flush := fun _ => [];
+    r_panic := fun _ => None
   |}.
 
   (** balanceReporter, balanceReporterCollapsed *)
@@ -328,7 +336,8 @@ Section Reporters.
     RS := tree NM; r_init := empty_root NM;
     r_process := fun _ t ln => (tree_add_all t (ln_elems ln), [], None);
     r_flush := fun t =>
-      map (fun r => (render_row NM r, rc_collapse c)) (balance_rows (rc_collapse c) (rc_collapse_last c) t)
+      map (fun r => (render_row NM r, rc_collapse c)) (balance_rows (rc_collapse c) (rc_collapse_last c) t);
+    r_panic := fun _ => None
   |}.
 
   (** balanceSingleReporter *)
@@ -348,7 +357,8 @@ Section Reporters.
     r_flush := fun st =>
       map (fun r => (render_row NM r, rc_collapse c)) (balance_rows (rc_collapse c) (rc_collapse_last c) (fst st))
       ++ [checked (brepeat (b "-") 11 ++ b "|" ++ [c_lf]);
-          checked (f10_2 (snd st) ++ b " | " ++ rc_single_element c ++ [c_lf])]
+          checked (f10_2 (snd st) ++ b " | " ++ rc_single_element c ++ [c_lf])];
+    r_panic := fun _ => None
   |}.
 
   (** TotalReporter (report totals) *)
@@ -365,7 +375,8 @@ Section Reporters.
           :: map (fun t => let '(name, p, n, s) := t in
                    checked (f12_2 p ++ b "  " ++ f12_2 n ++ b "  " ++ f12_2 s ++ b "  " ++ name ++ [c_lf]))
                  (totals_of_acc perm_flush acc)
-      end
+      end;
+    r_panic := fun _ => None
   |}.
 
   (** QuantityReporter (report quantity): [acc[name] = 0] then [+=] *)
@@ -389,7 +400,8 @@ Section Reporters.
     r_process := fun _ acc ln => (fold_left (fun a nv => qty_add (fst nv) (snd nv) a) (ln_elems ln) acc, [], None);
     r_flush := fun acc =>
       map (fun nv => unchecked (f2 (snd nv) ++ [c_tab] ++ fst nv ++ [c_lf]))
-          (sort_by_value desc (named_in_order perm_flush acc))
+          (sort_by_value desc (named_in_order perm_flush acc));
+    r_panic := fun _ => None
   |}.
 
   (** UnsolvedReporter (report unresolved) *)
@@ -400,7 +412,8 @@ Section Reporters.
                               | Some _ => a
                               | None => if existsb (beq (fst nv)) a then a else a ++ [fst nv]
                               end) (ln_elems ln) l, [], None);
-    r_flush := fun l => map (fun n => unchecked (n ++ [c_lf])) (sort_bytes (perm_flush l))
+    r_flush := fun l => map (fun n => unchecked (n ++ [c_lf])) (sort_bytes (perm_flush l));
+    r_panic := fun _ => None
   |}.
 
   (** encoding/csv Writer *)
@@ -429,7 +442,8 @@ Section Reporters.
   Definition rep_csv_log : reporter := {|
     RS := unit; r_init := tt;
     r_process := fun _ _ ln => (tt, map (fun r => checked (csv_record r)) (csv_log_rows ln), None);
-    r_flush := fun _ => []
+    r_flush := fun _ => [];
+    r_panic := fun _ => None
   |}.
 
   (** CSVDatabaseReporter.Process *)
@@ -451,7 +465,8 @@ Section Reporters.
   Definition rep_print (c : rconfig) : reporter := {|
     RS := unit; r_init := tt;
     r_process := fun _ _ ln => (tt, print_chunks c ln, None);
-    r_flush := fun _ => []
+    r_flush := fun _ => [];
+    r_panic := fun _ => None
   |}.
 
   (** NewRegReporter's choice *)
